@@ -186,7 +186,7 @@ fn real_graph(k: usize, names: &[String], rows: &[(String, Vec<u8>)], threads: u
 }
 
 /// real downstream pipeline on a graph whose shared-key vectors are forced to `forced`
-fn downstream(k: usize, names: &[String], rows: &[(String, Vec<u8>)], forced: &BTreeMap<Key, Vec<Key>>) -> Result<Vec<Vec<u8>>, String> {
+fn downstream(k: usize, names: &[String], rows: &[(String, Vec<u8>)], forced: &BTreeMap<Key, Vec<Key>>) -> Result<(Vec<Vec<u8>>, String), String> {
     let a = array_in_order(k, names, rows)?;
     let prefix = scratch::path("c11_sched_out");
     for f in ["_snps.fas", "_indels.vcf"] {
@@ -213,32 +213,111 @@ fn downstream(k: usize, names: &[String], rows: &[(String, Vec<u8>)], forced: &B
             let (start, end): (HashSet<u64>, HashSet<u64>) = identify_good_kmers(&g, &idx, &data_info);
             build_variant_groups(g, start, end, idx, &config, &data_info);
             let _ = names_v;
-            std::fs::read(format!("{pfx}_snps.fas")).unwrap_or_default()
+            let mut out = std::fs::read(format!("{pfx}_snps.fas")).unwrap_or_default();
+            out.extend_from_slice(b"\n#INDELS#\n");
+            out.extend(std::fs::read(format!("{pfx}_indels.vcf")).unwrap_or_default());
+            out
         },
         30_000,
     );
     match r {
         ChildResult::Ok(b) => {
-            let (_, seqs) = real::parse_fasta(&b);
+            let text = String::from_utf8_lossy(&b).to_string();
+            let (fas, indels) = text.split_once("\n#INDELS#\n").unwrap_or((&text, ""));
+            let (_, seqs) = real::parse_fasta(fas.as_bytes());
             let cols = real::columns_of(&seqs)?;
             let mut v: Vec<Vec<u8>> = cols.iter().map(|c| lo::canon_col(c)).collect();
             v.sort();
-            Ok(v)
+            Ok((v, indels.to_string()))
         }
         ChildResult::Timeout => Err("MACHINERY downstream child timed out".into()),
         other => Err(format!("downstream pipeline failed: {other:?}")),
     }
 }
 
-fn cases(seed: u64, thorough: bool) -> Vec<SnpCase> {
+enum Case {
+    Snp(SnpCase),
+    Indel(super::c18::IndelCase),
+}
+
+impl Case {
+    fn k(&self) -> usize {
+        match self {
+            Case::Snp(c) => c.k,
+            Case::Indel(c) => c.k,
+        }
+    }
+    fn n(&self) -> usize {
+        match self {
+            Case::Snp(c) => c.n(),
+            Case::Indel(c) => c.n(),
+        }
+    }
+    fn samples(&self) -> Vec<Vec<Vec<u8>>> {
+        match self {
+            Case::Snp(c) => c.samples(),
+            Case::Indel(c) => c.samples(),
+        }
+    }
+    fn premise(&self) -> bool {
+        match self {
+            Case::Snp(c) => c.premise(),
+            Case::Indel(c) => c.premise(),
+        }
+    }
+    fn label(&self) -> String {
+        match self {
+            Case::Snp(c) => format!("k={} sites={:?} alleles={:?}", c.k, c.sites, c.alleles),
+            Case::Indel(c) => format!("k={} indel segs={:?} present={:?}", c.k, c.segs, c.present),
+        }
+    }
+    /// canonical expected result (SNP columns; number of planted indels) and judgement of an output
+    fn judge(&self, cols: &[Vec<u8>], indels_vcf: &str) -> Result<String, String> {
+        match self {
+            Case::Snp(c) => {
+                let planted = c.planted_columns();
+                if cols != planted.as_slice() {
+                    let show = |v: &[Vec<u8>]| v.iter().map(|x| String::from_utf8_lossy(x).to_string()).collect::<Vec<_>>().join(" ");
+                    return Err(format!("ska lo reports [{}] instead of the planted [{}]", show(cols), show(&planted)));
+                }
+                Ok(format!("{planted:?}"))
+            }
+            Case::Indel(c) => {
+                let recs = lo::parse_indels(indels_vcf);
+                let mut matched = BTreeSet::new();
+                for r in &recs {
+                    match super::c18::judge_record(c, r)? {
+                        Some(si) => {
+                            if !matched.insert(si) {
+                                return Err(format!("planted indel {si} reported twice"));
+                            }
+                        }
+                        None => return Err(format!("indel record REF={} ALT={} does not correspond to a planted indel", r.ref_allele, r.alt_allele)),
+                    }
+                }
+                if matched.len() != c.segs.len() {
+                    return Err(format!("{} of {} planted indels reported", matched.len(), c.segs.len()));
+                }
+                Ok(format!("indels {:?} cols {:?}", matched, cols))
+            }
+        }
+    }
+}
+
+fn cases(seed: u64, thorough: bool) -> Vec<Case> {
     let mut v = Vec::new();
     let ks: Vec<usize> = if thorough { vec![7, 9, 11] } else { vec![7, 9] };
     for k in ks {
         let anc = lo::ancestor(10 * k + 1, k, seed + 17);
         // one biallelic SNP, one triallelic SNP, two SNPs
-        v.push(SnpCase { k, ancestor: anc.clone(), sites: vec![5 * k], alleles: vec![vec![0, 0, 1]], flip: vec![false, true, false] });
-        v.push(SnpCase { k, ancestor: anc.clone(), sites: vec![5 * k], alleles: vec![vec![0, 1, 2]], flip: vec![false, false, true] });
-        v.push(SnpCase { k, ancestor: anc.clone(), sites: vec![3 * k, 7 * k + 1], alleles: vec![vec![0, 1, 1], vec![1, 0, 1]], flip: vec![false, false, false] });
+        v.push(Case::Snp(SnpCase { k, ancestor: anc.clone(), sites: vec![5 * k], alleles: vec![vec![0, 0, 1]], flip: vec![false, true, false] }));
+        v.push(Case::Snp(SnpCase { k, ancestor: anc.clone(), sites: vec![5 * k], alleles: vec![vec![0, 1, 2]], flip: vec![false, false, true] }));
+        v.push(Case::Snp(SnpCase { k, ancestor: anc.clone(), sites: vec![3 * k, 7 * k + 1], alleles: vec![vec![0, 1, 1], vec![1, 0, 1]], flip: vec![false, false, false] }));
+    }
+    // an indel bubble (two paths of unequal length)
+    for (k, len) in [(11usize, 2usize), (15, 5)] {
+        let base = lo::ancestor(12 * k, k, seed + 18);
+        v.push(Case::Indel(super::c18::IndelCase { k, base, segs: vec![(6 * k, len)], present: vec![vec![true, false, true]], flip: vec![false, false, false] }));
     }
     v
 }
@@ -256,9 +335,10 @@ pub fn run(ctx: &Ctx, rep: &mut Report) {
             continue;
         }
         let n = c.n();
+        let ck = c.k();
         let names: Vec<String> = (0..n).map(|i| format!("smp{i}")).collect();
         let paths: Vec<String> = (0..n).map(|i| scratch::write(&format!("c11s_{i}.fa"), &scratch::fasta(&c.samples()[i]))).collect();
-        let a = match real::build_array::<u64>(&names, &paths, c.k, true) {
+        let a = match real::build_array::<u64>(&names, &paths, ck, true) {
             Ok(a) => a,
             Err(e) => {
                 rep.machinery(format!("C11 sched: build failed: {e}"));
@@ -266,8 +346,8 @@ pub fn run(ctx: &Ctx, rep: &mut Report) {
             }
         };
         let rows = array_rows(&a);
-        let items: Vec<Vec<(Key, Key)>> = rows.iter().map(|(key, b)| row_ops(c.k, key, b)).collect();
-        let label = format!("k={} sites={:?} alleles={:?}", c.k, c.sites, c.alleles);
+        let items: Vec<Vec<(Key, Key)>> = rows.iter().map(|(key, b)| row_ops(ck, key, b)).collect();
+        let label = c.label();
         // --- the interleaving model
         let mut r_by_w: BTreeMap<usize, ModelResult> = BTreeMap::new();
         for w in [2usize, 3, 4] {
@@ -283,7 +363,6 @@ pub fn run(ctx: &Ctx, rep: &mut Report) {
             continue;
         }
         rep.corner("cases_with_shared_keys");
-        let planted = c.planted_columns();
         // --- (iii) one thread, permuted rows: real graph == model graph for that item order
         let nrows = rows.len();
         let mut perms: Vec<Vec<usize>> = vec![(0..nrows).collect(), (0..nrows).rev().collect(), (0..nrows).map(|i| (i * 7 + 3) % nrows).collect::<Vec<_>>()];
@@ -300,7 +379,7 @@ pub fn run(ctx: &Ctx, rep: &mut Report) {
             let prow: Vec<(String, Vec<u8>)> = p.iter().map(|i| rows[*i].clone()).collect();
             let pitems: Vec<Vec<(Key, Key)>> = p.iter().map(|i| items[*i].clone()).collect();
             let want = apply_in_order(&pitems, &(0..nrows).collect::<Vec<_>>());
-            match real_graph(c.k, &names, &prow, 1) {
+            match real_graph(ck, &names, &prow, 1) {
                 Ok(got) => {
                     // keys filled by one item only may differ in order only if that item pushed twice (hash order of the row's bases)
                     let same = got.len() == want.len()
@@ -327,18 +406,22 @@ pub fn run(ctx: &Ctx, rep: &mut Report) {
         }
         // --- (i) every reachable final graph through the real downstream pipeline
         let r3 = &r_by_w[&3].finals;
-        let mut outcomes: BTreeSet<Vec<Vec<u8>>> = BTreeSet::new();
+        let mut outcomes: BTreeSet<String> = BTreeSet::new();
         for forced in r3.iter() {
             rep.evaluations += 1;
             rep.nontrivial += 1;
-            match downstream(c.k, &names, &rows, forced) {
-                Ok(cols) => {
+            match downstream(ck, &names, &rows, forced) {
+                Ok((cols, indels)) => {
                     rep.traces_validated += 1;
-                    if cols != planted {
-                        let show = |v: &Vec<Vec<u8>>| v.iter().map(|x| String::from_utf8_lossy(x).to_string()).collect::<Vec<_>>().join(" ");
-                        rep.violate(format!("sched-i {label}"), format!("{label}: a reachable neighbour order makes ska lo report [{}] instead of the planted [{}]", show(&cols), show(&planted)), json!({"part": "i", "case": label, "order": format!("{:?}", forced.iter().map(|(k, v)| (unpack(*k, c.k - 1), v.iter().map(|x| unpack(*x, c.k - 1)).collect::<Vec<_>>())).collect::<Vec<_>>())}));
+                    match c.judge(&cols, &indels) {
+                        Ok(canon) => {
+                            outcomes.insert(canon);
+                        }
+                        Err(e) => {
+                            outcomes.insert(format!("wrong: {e}"));
+                            rep.violate(format!("sched-i {label}"), format!("{label}: under a reachable neighbour order {e}"), json!({"part": "i", "case": label, "order": format!("{:?}", forced.iter().map(|(k, v)| (unpack(*k, ck - 1), v.iter().map(|x| unpack(*x, ck - 1)).collect::<Vec<_>>())).collect::<Vec<_>>())}));
+                        }
                     }
-                    outcomes.insert(cols);
                 }
                 Err(e) if e.starts_with("MACHINERY") => rep.machinery(e),
                 Err(e) => rep.violate(format!("sched-i {label}"), e, json!({"part": "i", "case": label})),
@@ -346,7 +429,7 @@ pub fn run(ctx: &Ctx, rep: &mut Report) {
         }
         rep.outcome(&outcomes);
         if outcomes.len() > 1 {
-            rep.violate(format!("sched-i-distinct {label}"), format!("{label}: different reachable neighbour orders give {} different SNP alignments", outcomes.len()), json!({"part": "i", "case": label}));
+            rep.violate(format!("sched-i-distinct {label}"), format!("{label}: different reachable neighbour orders give {} different results", outcomes.len()), json!({"part": "i", "case": label}));
         }
         // --- (ii) real multi-threaded runs land inside the model's reachable set
         let reps = if thorough { 50 } else { 6 };
@@ -356,7 +439,7 @@ pub fn run(ctx: &Ctx, rep: &mut Report) {
         for t in 1..=8usize {
             for _ in 0..reps {
                 rep.evaluations += 1;
-                match real_graph(c.k, &names, &rows, t) {
+                match real_graph(ck, &names, &rows, t) {
                     Ok(g) => {
                         let proj: BTreeMap<Key, Vec<Key>> = g.iter().filter(|(k, _)| shared.contains(k)).map(|(k, v)| (*k, v.clone())).collect();
                         if r4.contains(&proj) {
